@@ -6,6 +6,7 @@ real `Route` / `BoundRoute.match_path` / WSGI dispatch, with the verdict for
 each triple given by ref/match.py.
 """
 import itertools
+import urllib.parse
 import os
 import time
 
@@ -340,6 +341,43 @@ def run_invalid(acc, clastic, shard, nshards):
             acc.violation('C05:invalid-accepted:%s' % why,
                           'malformed pattern %r (%s) accepted by Route()' % (p, why),
                           {'kind': 'invalid', 'pattern': p, 'mode': mode})
+        # every other documented way of writing a route down refuses the pattern just the same
+        for via in INVALID_VIAS:
+            acc.evaluated += 1
+            acc.transitions += 1
+            acc.validated += 1
+            case = {'kind': 'invalid-via', 'pattern': p, 'via': via}
+            try:
+                _construct_via(via, p)
+            except InvalidPattern:
+                acc.outcome('invalid:rejected')
+                continue
+            except Exception as e:
+                acc.violation('C05:invalid-wrong-exception:%s:%s:%s' % (why, type(e).__name__, via),
+                              'malformed pattern %r written as %s raised %r instead of InvalidPattern' % (p, via, e), case)
+                continue
+            acc.violation('C05:invalid-accepted:%s:%s' % (why, via), 'malformed pattern %r (%s) accepted when written as %s'
+                          % (p, why, via), case)
+
+
+INVALID_VIAS = ('cline-decorator', 'cline-get', 'tuple', 'add-tuple', 'GET', 'POST-add')
+
+
+def _construct_via(via, p):
+    from clastic import Application, GET, POST
+    from clastic.cline import Cline
+    if via == 'cline-decorator':
+        Cline().route(p)(_noop)
+    elif via == 'cline-get':
+        Cline().get(p)(_noop)
+    elif via == 'tuple':
+        Application([(p, _noop)])
+    elif via == 'add-tuple':
+        Application().add((p, _noop))
+    elif via == 'GET':
+        GET(p, _noop)
+    elif via == 'POST-add':
+        Application().add(POST(p, _noop))
 
 
 # ---- end to end through the WSGI callable ---------------------------------
@@ -374,9 +412,9 @@ def run_e2e(acc, clastic, shard, nshards, maxel, maxsegs):
         relems = ref_elems(elems)
         names = [e[1] for e in elems if e[0] == 'bind']
         for mode, placement in ((R.STRICT, 'app'), (R.REWRITE, 'app'), (R.STRICT, 'route'), (R.REWRITE, 'route'),
-                                (R.STRICT, 'embed-own'), (R.REWRITE, 'embed-own')):
+                                (R.STRICT, 'embed-own'), (R.REWRITE, 'embed-own'), (R.REDIRECT, 'mounted')):
             ep, seen = _mk_endpoint(names)
-            if placement == 'app':
+            if placement in ('app', 'mounted'):
                 app = Application([Route(ptext, ep)], slash_mode=common.fresh_str(mode))
             elif placement == 'embed-own':
                 # the mode is that of an embedded application which keeps its own slashes
@@ -399,13 +437,39 @@ def run_e2e(acc, clastic, shard, nshards, maxel, maxsegs):
                 case = {'kind': 'e2e', 'pattern': ptext, 'mode': mode, 'path': path, 'placement': placement}
                 try:
                     # paths with a '+' also travel through the development server's own request parsing
-                    env = wsgi.dev_server_environ(path, 'GET') if ('+' in path and not path.startswith('//')) else _environ(path)
-                    body = app(env, lambda s, h, e=None: status.append(s))
+                    env = wsgi.dev_server_environ(path, 'GET') if ('+' in path and not path.startswith('//') and placement != 'mounted') else _environ(path)
+                    hdrs = []
+                    if placement == 'mounted':
+                        env['SCRIPT_NAME'] = '/mnt'
+                    body = app(env, lambda s, h, e=None: (status.append(s), hdrs.append(h)))
                     try:
                         b''.join(body)
                     finally:
                         if hasattr(body, 'close'):
                             body.close()
+                    if placement == 'mounted' and status and status[0][:3] in ('301', '302', '303', '307', '308'):
+                        # redirect mode tolerates the slashes by sending the client to the clean URL - of this very
+                        # application, wherever it is mounted; the client goes there
+                        loc = dict((k.lower(), v) for k, v in hdrs[0]).get('location', '')
+                        lp = urllib.parse.urlsplit(loc).path
+                        if not lp.startswith('/mnt/') and lp != '/mnt':
+                            acc.violation('C05:e2e-redirect-leaves-mount', '%r (redirect) mounted at /mnt: request %r is redirected to %r'
+                                          % (ptext, path, loc), case)
+                            continue
+                        env = _environ(urllib.parse.unquote(lp[len('/mnt'):]) or '/')
+                        env['SCRIPT_NAME'] = '/mnt'
+                        del status[:]
+                        acc.transitions += 1
+                        body = app(env, lambda s, h, e=None: status.append(s))
+                        try:
+                            b''.join(body)
+                        finally:
+                            if hasattr(body, 'close'):
+                                body.close()
+                        if not status or status[0][:3] != '200':
+                            acc.violation('C05:e2e-redirect-target', '%r (redirect): %r was redirected to %r, which answers %s'
+                                          % (ptext, path, loc, status), case)
+                            continue
                 except Exception as e:
                     acc.violation('C05:e2e-raised:%s:%s' % (mode, type(e).__name__),
                                   '%r (%s) request %r made the application raise %r' % (ptext, mode, path, e), case)
@@ -450,8 +514,8 @@ def space_size(tier):
     total = 0
     for name, kinds, lo, hi, mkpaths in layers(tier):
         total += len(layer_patterns(kinds, lo, hi)) * len(MODES) * len(mkpaths())
-    total += len(invalid_patterns()) * len(MODES)
-    total += len(layer_patterns(P2_KINDS, 0, 2)) * 6 * len(seg_paths(2 if tier == 'quick' else 3))
+    total += len(invalid_patterns()) * (len(MODES) + len(INVALID_VIAS))
+    total += len(layer_patterns(P2_KINDS, 0, 2)) * 7 * len(seg_paths(2 if tier == 'quick' else 3))
     return total
 
 
